@@ -110,3 +110,48 @@ def tall_subspaces(shapes=((7, 3), (3, 7), (5, 5)), histories=("jobmajor", "reve
             for h in histories:
                 out.append(dict(shape=list(shape), machines=machines, share=share, history=h, wide=True, **extra))
     return out
+
+
+class Bystander:
+    """Other library objects alive in the same process ('bystander' sub-spaces): state must not leak between objects.
+
+    (a) a second dispatcher - with its own UnscheduledOperationsObserver, HistoryObserver and, if asked, one of every
+        library observer - on the SAME instance object, driven one step AHEAD of the object under test along its own
+        history (last job first), and queried; it is reset and driven again when it completes;
+    (b) a dispatcher on a DIFFERENT concrete instance of another shape that carries the same name, driven likewise.
+    The oracles of the calling harness stay what they are: the object under test has to behave as if it were alone."""
+
+    def __init__(self, inst, observers=False, recorder=None):
+        from job_shop_lib import JobShopInstance, Operation
+        from job_shop_lib.dispatching import Dispatcher, UnscheduledOperationsObserver, HistoryObserver
+        other = JobShopInstance([[Operation(1, 3), Operation(0, 2), Operation(1, 1)], [Operation(0, 4), Operation(1, 2)],
+                                 [Operation(0, 1)]], name=inst.name)
+        self.disps = [Dispatcher(inst), Dispatcher(other)]
+        for d in self.disps:
+            UnscheduledOperationsObserver(d)
+            HistoryObserver(d)
+            if recorder is not None:
+                recorder(d)
+        if observers:
+            attach_library_observers(self.disps[0], inst, "atj")
+        self.step()
+
+    def step(self):
+        for d in self.disps:
+            if d.schedule.is_complete():
+                d.reset()
+            jobs = d.instance.jobs
+            for j in reversed(range(len(jobs))):
+                i = d.job_next_operation_index[j]
+                if i < len(jobs[j]):
+                    op = jobs[j][i]
+                    d.dispatch(op, op.machines[-1])
+                    break
+            # queries fill the bystander's caches in a state the object under test is not in
+            d.available_operations()
+            d.unscheduled_operations()
+            d.uncompleted_operations()
+            d.ongoing_operations()
+            d.current_time()
+            d.available_machines()
+            d.available_jobs()
